@@ -219,6 +219,49 @@ theorem C08_matcher_contract_checked (n m : Nat) (ms : List MEntry) (h : matcher
     · simp [Option.isNone_iff_eq_none.mp h] at ht
   · exact hz
 
+/-! ### the executable cover statement used as monitor -/
+
+theorem exactlyOnceB_iff (n : Nat) (l : List Nat) : exactlyOnceB n l = true ↔ l.Perm (List.range n) := by
+  unfold exactlyOnceB
+  simp only [Bool.and_eq_true, List.all_eq_true, List.mem_range, beq_iff_eq, decide_eq_true_eq]
+  constructor
+  · rintro ⟨h1, h2⟩; exact perm_range_of_counts l n h1 h2
+  · intro hp
+    constructor
+    · intro i hi
+      rw [hp.count_eq, List.Nodup.count List.nodup_range]; simp [hi]
+    · intro i hi
+      simpa using hp.mem_iff.mp hi
+
+/-- the monitor the harness evaluates on the matches `sound_event_detection` really returned
+    means exactly the cover statement of `C08_cover` … -/
+theorem C08_holds_cover_sound (nP nA : Nat) (ms : List (Option Nat × Option Nat)) :
+    holdsCoverB nP nA ms = true ↔
+      ((ms.filterMap (·.1)).Perm (List.range nP) ∧ (ms.filterMap (·.2)).Perm (List.range nA) ∧
+       ∀ m ∈ ms, m.1.isSome ∨ m.2.isSome) := by
+  unfold holdsCoverB
+  simp only [Bool.and_eq_true, exactlyOnceB_iff, List.all_eq_true, Bool.or_eq_true, and_assoc]
+
+/-- … and the model satisfies it whenever the matcher keeps its contract -/
+theorem C08_holds_cover_model (C : Nat) (preds : List SEPred) (anns : List SEAnn) (ms : List MEntry)
+    (hc : MatcherCover (preds.filter (·.hasGeom)).length (anns.filter (·.hasGeom)).length ms) :
+    ∃ es, evalClip C preds anns ms = some es ∧
+      holdsCoverB preds.length anns.length (es.map (fun e => (e.src, e.tgt))) = true := by
+  obtain ⟨es, h, h1, h2, h3⟩ := C08_cover C preds anns ms hc
+  refine ⟨es, h, ?_⟩
+  rw [C08_holds_cover_sound]
+  refine ⟨?_, ?_, ?_⟩
+  · simpa [List.filterMap_map, Function.comp_def] using h1
+  · simpa [List.filterMap_map, Function.comp_def] using h2
+  · intro m hm
+    obtain ⟨e, he, rfl⟩ := List.mem_map.mp hm
+    exact h3 e he
+
+example : holdsCoverB 2 1 [(some 1, some 0), (some 0, none)] = true := by decide
+example : holdsCoverB 2 1 [(some 1, some 0)] = false := by decide
+example : holdsCoverB 1 1 [(some 0, some 0), (none, some 0)] = false := by decide
+
+
 /-! ### scores are means -/
 
 theorem C08_clip_score_is_mean (es : List Entry) :
